@@ -36,6 +36,9 @@ for _pid, _txt in {
            "must follow only outcomes that guarantee the previous attempt was not applied",
     "C05": "the retry decision table (Decide) and the traversal rules are checked by TLC (EachHostOnce, AttemptsBounded, SucceedsIfSomeHostOk, NoHostsIffAllTried, "
            "ReturnsFirstFinal, termination under fairness); every terminal attempt history is replayed and the real attempt sequence/reply must be the prescribed one",
+    "C08": "the prepare path of RequestObs (UNPREPARED -> re-prepare on the same connection -> re-execute on the same host; failed re-prepare -> next "
+           "host; NeverUnpreparedWhileCached) checked by TLC; scenario families against the real proxy: hosts that never saw the PREPARE, scripted "
+           "UNPREPARED with re-prepare ok/error/connection loss, node restarts, a node joining after start-up, lz4 and snappy sessions",
 }.items():
     CHECKS[_pid] = dict(category="model_checking", technique=REQ_TECH, text=_txt, note=REQ_NOTE, design="§6 " + _pid)
 
